@@ -871,11 +871,15 @@ fn force_https_redirect(stream: &mut TcpStream) -> Result<SocketAddr, Box<dyn st
     let request = Request::from_stream(stream, addr)?;
 
     let response = if let Some(host) = request.headers.get(&HeaderType::Host) {
+        // The request target is the path and, if there is one, the query string
+        let target = if request.query.is_empty() {
+            request.uri.clone()
+        } else {
+            format!("{}?{}", request.uri, request.query)
+        };
+
         Response::empty(StatusCode::MovedPermanently)
-            .with_header(
-                HeaderType::Location,
-                format!("https://{}{}", host, request.uri),
-            )
+            .with_header(HeaderType::Location, format!("https://{}{}", host, target))
             .with_header(HeaderType::Connection, "Close")
     } else {
         Response::empty(StatusCode::OK)
